@@ -23,19 +23,19 @@ extern const type_t Events, Event;
 void set_initial_states(hist_t* self, int* const initial_states)
 __CPROVER_requires(REGIONS_OK && __CPROVER_is_fresh(self, sizeof(*self)) && __CPROVER_is_fresh(initial_states, sizeof(int) * NR_CAP))
 __CPROVER_assigns(__CPROVER_object_whole(self))
-__CPROVER_ensures(INIT(self)[g_k] == initial_states[g_k])                       /*@ob C08.initial-states-recorded */
-__CPROVER_ensures(MEM(self)[g_k] == initial_states[g_k])                        /*@ob C08.memory-starts-at-the-initial-states */
+__CPROVER_ensures(INIT(self)[g_k] == initial_states[g_k])                       /*@ob C08,C03.initial-states-recorded */
+__CPROVER_ensures(MEM(self)[g_k] == initial_states[g_k])                        /*@ob C08,C03.memory-starts-at-the-initial-states */
 ;
 void history_exit(hist_t* self, int* const current_states)
 __CPROVER_requires(REGIONS_OK && __CPROVER_is_fresh(self, sizeof(*self)) && __CPROVER_is_fresh(current_states, sizeof(int) * NR_CAP))
 __CPROVER_assigns(__CPROVER_object_whole(self))
-__CPROVER_ensures(POLICY == 0 ? MEM(self)[g_k] == __CPROVER_old(MEM(self)[g_k]) : MEM(self)[g_k] == current_states[g_k])    /*@ob C08.exit-remembers-the-last-active-state-of-every-region */
+__CPROVER_ensures(POLICY == 0 ? MEM(self)[g_k] == __CPROVER_old(MEM(self)[g_k]) : MEM(self)[g_k] == current_states[g_k])    /*@ob C08,C03.exit-remembers-the-last-active-state-of-every-region */
 __CPROVER_ensures(POLICY != 2 || INIT(self)[g_k] == __CPROVER_old(INIT(self)[g_k]))                                          /*@ob C08.shallow-history-keeps-the-initial-states */
 ;
 const int* history_entry(hist_t* self, event_t evt)
 __CPROVER_requires(REGIONS_OK && __CPROVER_is_fresh(self, sizeof(*self)))
 __CPROVER_assigns()                                                                                                          /*@ob C08.entry-does-not-change-the-memory */
-__CPROVER_ensures(POLICY == 0 ? __CPROVER_return_value == INIT(self) : POLICY == 1 ? __CPROVER_return_value == MEM(self) : __CPROVER_return_value == (g_event_in_history_events ? MEM(self) : INIT(self)))   /*@ob C08.entry-restores-the-documented-configuration */
+__CPROVER_ensures(POLICY == 0 ? __CPROVER_return_value == INIT(self) : POLICY == 1 ? __CPROVER_return_value == MEM(self) : __CPROVER_return_value == (g_event_in_history_events ? MEM(self) : INIT(self)))   /*@ob C08,C03.entry-restores-the-documented-configuration */
 ;
 _Bool process_deferred_events(hist_t* self, event_t evt)
 __CPROVER_requires(__CPROVER_is_fresh(self, sizeof(*self)))
